@@ -147,6 +147,16 @@ CLAIMED = {
                 note="Trusted: CrossHair, z3, ListMap name tables (==-based, so symbolic keys are not hashed), C18's path model. Non-ASCII folding, longer names, "
                      "Windows semantics, archive parsing are outside.",
                 technique=_E1),
+    "C16": dict(engine="chx", category="model_checking",
+                text="The real FGD.export into separate chunks, the real FGD.parse_file through a fake File, field-by-field comparison (with the documented "
+                     "I/O type decay) and second export == first, for symbolic leaves (display name, default, description, choice values/labels, tags; "
+                     "length <= 2, plus a numeric-looking sub-domain for defaults), symbolic custom_syntax/label_spawnflags/readonly/report, types/kinds/"
+                     "flag bits by index; the binary block format (ent_serialise/ent_unserialise) with symbolic bits and indices; every sequence of <= 3 (4) "
+                     "get_ent queries on a harness-built 3-block database against the eager load. The complete bundled database is only a concrete native "
+                     "supplement (one input), not solver-decided.",
+                note="Trusted: CrossHair, z3, binio models. The 1000-character long-string boundary uses concrete content (a symbolic character inside a "
+                     "1000-char str costs > 300 s per path); strings > 2 symbolic characters are outside.",
+                technique=_E1),
 }
 _TODO = "check not built yet in this round (planned: see DESIGN.md section 3)"
 NOT_APPLICABLE = {f"C{i:02d}": _TODO for i in range(1, 21) if f"C{i:02d}" not in CLAIMED}
